@@ -171,9 +171,15 @@ claim("C07", "proof",
       "of times), every range on every node of the CFG returned by the loop bounds the node's degree; the proof carries the block-order invariant the "
       "first-assignment rule relies on. WfD is evaluated on every real dump by the proved-sound Boolean wfDB. Tie to the code: (L2) node-by-node "
       "equality of real degree annotations with the Lean propagation model and (L1) an independent least-fixpoint analysis of the algebra over the "
-      "same SSA CFG (every claim must be >= the fixpoint; CS0013 never more often than right-hand sides the fixpoint accepts).",
-      "Lean kernel + standard axioms; the harness that executes the real functions; the algebra-to-MvPolynomial link is not formalised.",
-      "Lean 4 proof over tables regenerated from the running code (operator, expression and path level) + annotation correspondence + fixpoint oracle", "5 (C07)")
+      "same SSA CFG (every claim must be >= the fixpoint; CS0013 never more often than right-hand sides the fixpoint accepts), and (L1b) the "
+      "claim read as a statement about polynomials, tested directly: with every signal and port a free indeterminate and the parameters fixed, "
+      "the (d+1)-th finite difference of a node claimed to have degree <= d vanishes along random lines. The theorems speak about one execution "
+      "at a time (a phi has the degree of one argument); the reading across executions fails in the code for values that depend on a signal "
+      "through control flow (known finding F-C07-control-dependence, found by an audit sub-agent, detected by L1b). The algebra is the "
+      "compiler's table (quadratic +/- quadratic = non-quadratic; defect F-C07-sum-of-products repaired in cf338f0).",
+      "Lean kernel + standard axioms; the harness that executes the real functions; the algebra-to-MvPolynomial link is not formalised "
+      "(the finite-difference oracle stands in for it as a search tool).",
+      "Lean 4 proof over tables regenerated from the running code (operator, expression and path level) + annotation correspondence + fixpoint and finite-difference oracles", "5 (C07)")
 
 claim("C06", "proof",
       "Lean 4 theorems (Props/C06.lean, corollaries of C16): for every prime p > 2 and all operands the operator transfer of value "
